@@ -1,5 +1,6 @@
 import BddProofs.Bracket
 import BddProofs.BracketText
+import BddProofs.DotText
 import BddProofs.Dot
 import BddProofs.SubFn
 import BddProofs.IteConst
@@ -64,6 +65,23 @@ theorem C16_bracket_text_faithful (t : BTree) : parseBracket t.render = some t :
 theorem C16_bracket_text_injective {t₁ t₂ : BTree} (h : t₁.render = t₂.render) : t₁ = t₂ :=
   BTree.render_injective h
 
+/-- the DOT *text* determines the structured value: on a good state with live roots the export
+succeeds, and re-reading its lines (`readDot`: `(id, var)` from the label lines, `(id, hi)` / `(id, low)`
+from the edge lines, the handles from the root declarations, the kinds from the root edges) gives back
+exactly the records, the root handles and the root kinds of `toDot` -/
+theorem C16_dot_text_faithful {s : St} (hg : Good s) (roots : List Ref)
+    (hlive : ∀ r, r ∈ roots → Live s r.idx) :
+    ∃ lines, renderDot s roots = .ok lines ∧
+      readDot lines = { recs := (toDot s roots).1, roots := roots, rootKinds := (toDot s roots).2 } :=
+  ⟨_, renderDot_ok hg roots hlive, readDot_render_good hg roots hlive⟩
+
+/-- hence two exports with the same text have the same structured value and the same root handles -/
+theorem C16_dot_text_injective {s s' : St} (hg : Good s) (hg' : Good s') {roots roots' : List Ref}
+    (hlive : ∀ r, r ∈ roots → Live s r.idx) (hlive' : ∀ r, r ∈ roots' → Live s' r.idx)
+    (h : renderDotLines s roots = renderDotLines s' roots') :
+    toDot s roots = toDot s' roots' ∧ roots = roots' :=
+  dotText_determines_good hg hg' hlive hlive' h
+
 end P
 #print axioms P.C16_bracket_faithful
 #print axioms P.C16_dot_faithful
@@ -72,3 +90,5 @@ end P
 #print axioms P.C16_ite_constant_pure
 #print axioms P.C16_bracket_text_faithful
 #print axioms P.C16_bracket_text_injective
+#print axioms P.C16_dot_text_faithful
+#print axioms P.C16_dot_text_injective
